@@ -25,6 +25,11 @@ def gen(rng, kind):
             n_out += 1
             for _j in range(rng.randrange(0, 3)):     # some early, possibly repeated, out-of-order deliveries
                 msgs.append({"m": "deliver", "r": rng.randrange(nrepl), "out": rng.randrange(n_out)})
+            if rng.random() < 0.35:                   # a coordinated read pulls the peers' states into a replica (maybe one that never saw the key)
+                rr = rng.randrange(nrepl)
+                msgs.append({"m": "getc", "r": rr, "k": rng.choice(keys), "peers": [p for p in range(nrepl) if p != rr and rng.random() < 0.8]})
+                if rng.random() < 0.7 and n_out:
+                    msgs.append({"m": "deliver", "r": rr, "out": rng.randrange(n_out)})
         # quiescence: every delta reaches every replica at least once, in a shuffled order, some twice
         todo = [(r, i) for r in range(nrepl) for i in range(n_out)]
         todo += [rng.choice(todo) for _ in range(rng.randrange(0, 5))]
@@ -41,6 +46,9 @@ def gen(rng, kind):
     for _ in range(rng.choice([3, 6, 10])):
         r, k = rng.randrange(nrepl), rng.choice(keys)
         msgs.append({"m": "update", "r": r, "k": k, "op": rng.choice(["add", "add", "rem"]), "e": rng.choice([1, 2, 3])})
+        if rng.random() < 0.3:
+            rr = rng.randrange(nrepl)
+            msgs.append({"m": "getc", "r": rr, "k": rng.choice(keys), "peers": [p for p in range(nrepl) if p != rr and rng.random() < 0.8]})
         if rng.random() < 0.5:
             src = rng.randrange(nrepl)
             msgs.append({"m": "full", "r": rng.randrange(nrepl), "entries": [{"k": kk, "from": src, "bad": ""} for kk in keys if rng.random() < 0.8]})
@@ -83,6 +91,27 @@ def run(ctx, viol):
             viol("replicator:panic", "replicator panicked: %s" % o["panic"], {"history": h})
             continue
         steps += len(o["steps"])
+        # what a replica has learnt is never lost again: per key, per node, counts / clock entries never decrease
+        # (these histories contain no Delete)
+        lastc = {}
+        for i, (m, st) in enumerate(zip(h["msgs"], o["steps"])):
+            if m["m"] == "mergeall":
+                continue
+            r = m["r"]
+            cur = {}
+            for k, v in st["state"][0]:
+                if v and v[0] == 1:
+                    cur[k] = dict((n, c) for n, c in v[2])
+                elif v and v[0] == 6:
+                    cur[k] = dict((n, c) for n, c in v[2][1])
+            for k, before in lastc.get(r, {}).items():
+                after = cur.get(k)
+                if after is None or any(after.get(n, 0) < c for n, c in before.items()):
+                    viol("replicator:%s:learnt-state-lost" % h["kind"],
+                         "replica %d, key k%d: per-node counts went from %s to %s while processing %s" % (r, k, before, after, m["m"]),
+                         {"history": {"ttl": h["ttl"], "nrepl": h["nrepl"], "msgs": h["msgs"][:i + 1]}, "step": i})
+                    break
+            lastc[r] = cur
         finals = {}
         for m, st in list(zip(h["msgs"], o["steps"]))[h["final"]:]:
             finals.setdefault(m["k"], []).append((m["r"], st["resp"]))
